@@ -633,6 +633,31 @@ func (m *machine) userChangesMode(viaCommands bool) {
 	if libMode != newMode || !libTime.Equal(newAsof) || libMode != want {
 		m.fail("mode-command-readback", "after gotelemetry %s the library reads (%q, %s)", want, libMode, libTime.Format(time.RFC3339))
 	}
+	// ... and what `gotelemetry env` prints is that mode, that date and the
+	// directory the commands work on
+	if m.viol == nil && t.Bool(1, 2) {
+		out := filepath.Join(m.c.Dir, "env.out")
+		if f, err := os.Create(out); err == nil {
+			saved := os.Stdout
+			os.Stdout = f
+			m.soloTask("user:env-command", func() { runEnv(nil) })
+			os.Stdout = saved
+			f.Close()
+			text, _ := os.ReadFile(out)
+			os.Remove(out)
+			lines := strings.Split(string(text), "\n")
+			wantLine := "mode: " + want + " " + newAsof.Format("2006-01-02") + " 00:00:00 +0000 UTC"
+			if len(lines) == 0 || lines[0] != wantLine {
+				m.fail("env-command", "after gotelemetry %s on %s, gotelemetry env prints %q, want %q", want, now.Format(time.RFC3339), lines[0], wantLine)
+			}
+			for _, kv := range [][2]string{{"modefile:", filepath.Join(m.tele, "mode")}, {"localdir:", m.loc}, {"uploaddir:", m.upl}} {
+				if !strings.Contains(string(text), kv[0]+" "+kv[1]+"\n") {
+					m.fail("env-command", "gotelemetry env does not print %q for %s: %q", kv[1], kv[0], text)
+				}
+			}
+			m.s.Probe("env-command")
+		}
+	}
 }
 
 // userCleans populates the directories with foreign files and runs gotelemetry clean.
